@@ -200,6 +200,10 @@ func HarnessDeployPreRun() {
 	for _, n := range []string{"max-request-body", "buffer-requests", "max-response-body", "buffer-responses", "forward-headers"} {
 		vChanged[n] = vBool("changed_" + n)
 	}
+	// flags that carry the lists / TLS: "changed" iff given (an explicitly empty --host "" also counts as given)
+	vChanged["host"] = nh > 0 || vBool("empty_host_flag_given")
+	vChanged["path-prefix"] = np > 0
+	vChanged["tls"] = tls
 	fwdGiven := vBool("forward_headers_value")
 	c.args.TargetOptions.ForwardHeaders = fwdGiven
 	if !vSymbolic() {
@@ -215,11 +219,17 @@ func HarnessDeployPreRun() {
 						val = "true"
 					}
 				}
+				if n == "host" || n == "path-prefix" || n == "tls" {
+					continue
+				}
 				cobraCmd.Flags().Set(n, val)
 			}
 		}
 	}
 
+	if !vSymbolic() && nh == 0 && vChanged["host"] {
+		cobraCmd.Flags().Set("host", "")
+	}
 	err := c.preRun(cobraCmd, []string{"svc"})
 
 	// the root path is listed if no prefix is given (default "/") or some prefix normalises to "/"
